@@ -280,6 +280,19 @@ func (v *parser_) parseCollection() (
 
 	// Create the correct type of collection.
 	var notation = Notation().Make()
+	if context == "Catalog" || context == "Map" {
+		for _, item := range sequence.AsArray() {
+			var _, isAssociation = item.(col.AssociationLike[any, any])
+			if !isAssociation {
+				var message = v.formatError(token)
+				message += v.generateSyntax("Association",
+					"Associations",
+					"Association",
+				)
+				panic(message)
+			}
+		}
+	}
 	switch context {
 	case "Array":
 		collection = col.Array[any](notation).MakeFromSequence(sequence)
